@@ -24,6 +24,12 @@ import numpy as np
 from pw_verif import ref
 
 RENORMALISING_FOCK = {"Creation", "Annihilation", "Squeeze"}
+MAX_REF_DIM = 3072   # joint dimension (after padding the addressed mode) the reference is willing to handle
+
+
+class TooBig(Exception):
+    """the joint dimension outgrew what the harness can reconstruct: the program ends, inconclusive"""
+
 
 
 def is_renormalising(optype: str) -> bool:
@@ -231,6 +237,11 @@ def expected_after_op(opdesc, pre, tnames: Sequence[str], post_dims_by_name: Dic
     tidx = [pre.names.index(t) for t in tnames]
     post_dims = [post_dims_by_name.get(n, d) for n, d in zip(pre.names, pre.dims)]
     common = reference_dims_for_op(opdesc, pre.rho, pre.dims, tidx, post_dims)
+    total = 1
+    for c in common:
+        total *= int(c)
+    if total > MAX_REF_DIM:
+        raise TooBig(f"reference dimension {total}")
     rho = ref.pad(pre.rho, pre.dims, common)
     O = ref_operator(opdesc, [common[i] for i in tidx], lib_dims_at_call)
     out = ref.apply_op(rho, common, tidx, O)
